@@ -10,10 +10,13 @@ def canon_nan(line):
 
 class PROP(PropCheck):
     id = "C07"
-    theorems = []
+    theorems = ["C07_keywords_are_reference", "C07_single_char_tokens_are_reference", "C07_escapes_are_reference",
+                "C07_end_set_is_reference", "C07_blanks_are_reference", "C07_keywords_are_words", "C07_lex_fuel_enough",
+                "C07_lex_total", "C07_lex_ok_iff_grammar", "C07_grammar_deterministic", "C07_lex_err_iff", "C07_lex_spans",
+                "C07_lex_literals", "C07_lex_labels_ok", "C07_example", "C07_uni_alnum_ascii_ok"]
     coq_imports = ["Token", "LexImpl", "Obs"]
     model_targets = ["theories/Obs.vo"]
-    prop_targets = []
+    prop_targets = ["theories/Props/C07.vo"]
     harness_mode = "lex"
     trusted_base = [
         "Coq 8.16.1 kernel and bytecode VM (vm_compute evaluates the scanner model on every case)",
